@@ -187,6 +187,13 @@ func (f *fctx) callFunction(ins *ssa.Call, callee *ssa.Function, args []Term, po
 	}
 	switch name {
 	case "strconv.FormatInt":
+		if args[1].S == "4" {
+			// base-4 digit string: only usable through strings.Split(s, "")
+			r := f.declare(ins.Name(), SStr)
+			f.digits4[r.S] = args[0]
+			f.setVal(ins, r)
+			return
+		}
 		if args[1].S != "10" {
 			f.fail("FormatInt with base %s", args[1].S)
 		}
@@ -216,6 +223,29 @@ func (f *fctx) callFunction(ins *ssa.Call, callee *ssa.Function, args []Term, po
 		f.sc.Trusted["strconv.ParseInt/Atoi: succeed exactly on one-field numeric atoms in int64 range"] = true
 		return
 	case "strings.Split":
+		if q, ok := f.digits4[args[0].S]; ok && args[1].S == strLiteral("").S {
+			// the characters of FormatInt(q, 4) for q >= 0: n base-4 digits, most significant first
+			f.oblige("S", fmt.Sprintf("M/digits4@%s", f.insID(ins)), T(SBool, "(>= %s 0)", q.S), pos, "digit-string model: non-negative value")
+			n := f.declare(ins.Name()+"_ndigits", SInt)
+			if root := f.rootFctx(); root.rootCon != nil {
+				for _, sp := range root.rootCon.Splits {
+					if sp.Var == "$ndigits" {
+						if f.sc.SplitConsts == nil {
+							f.sc.SplitConsts = map[string]string{}
+						}
+						f.sc.SplitConsts[n.S] = sp.Var
+					}
+				}
+			}
+			f.ndigits = &n
+			f.assume(T(SBool, "(and (<= 1 %s) (<= %s 32) (< %s (pow2 (* 2 %s))) (or (= %s 1) (>= %s (pow2 (* 2 (- %s 1))))))", n.S, n.S, q.S, n.S, n.S, q.S, n.S))
+			r := f.declare(ins.Name(), SeqOf(SStr))
+			f.assume(T(SBool, "(= (seq.len %s) %s)", r.S, n.S))
+			f.assume(T(SBool, "(forall ((q!k Int)) (! (=> (and (<= 0 q!k) (< q!k %s)) (= (select (seq.el %s) q!k) (str1 (a.num (mod (div %s (pow2 (* 2 (- (- %s 1) q!k)))) 4))))) :pattern ((select (seq.el %s) q!k))))", n.S, r.S, q.S, n.S, r.S))
+			f.setVal(ins, r)
+			f.sc.Trusted["strings.Split(strconv.FormatInt(q,4),\"\") for q>=0: the base-4 digits of q, most significant first, no leading zeros"] = true
+			return
+		}
 		if args[1].S != strLiteral("/").S {
 			f.fail("strings.Split with separator other than \"/\"")
 		}
@@ -289,6 +319,9 @@ func (f *fctx) applyContract(callee *ssa.Function, con *Contract, args []Term, p
 	for _, sp := range con.Splits {
 		for i, p := range callee.Params {
 			if p.Name() == sp.Var {
+				if sp.HiVar != "" {
+					continue
+				}
 				g := T(SBool, "(and (<= %s %s) (<= %s %s))", IntLit(int64(sp.Lo)).S, args[i].S, args[i].S, IntLit(int64(sp.Hi)).S)
 				preTerms = append(preTerms, g)
 				f.oblige("R", fmt.Sprintf("R/%s.split-%s@%s", FuncKey(callee), sp.Var, id), g, pos,
@@ -438,6 +471,12 @@ func (f *fctx) applyContract(callee *ssa.Function, con *Contract, args []Term, p
 			}
 		}
 		for _, sp := range cc.Splits {
+			if sp.HiVar != "" || strings.HasPrefix(sp.Var, "$") {
+				continue // internal case split (loop index, ghost count): not a condition on the arguments
+			}
+			if _, isParamOrGhost := cenvPre.Vars[sp.Var]; !isParamOrGhost {
+				continue
+			}
 			e, err := ParseExpr(fmt.Sprintf("%d <= %s && %s <= %d", sp.Lo, sp.Var, sp.Var, sp.Hi))
 			if err != nil {
 				panic(specErr{err.Error()})
@@ -507,6 +546,7 @@ func (f *fctx) inlineCallWith(callee *ssa.Function, args []Term, bindings []ssa.
 	c.ideal = f.ideal
 	c.pow2Vals = f.pow2Vals
 	c.constLen = f.constLen
+	c.digits4 = f.digits4
 	c.obPrefix = f.obPrefix
 	c.validTerm = f.validTerm
 	c.con = &Contract{Loops: map[int][]Clause{}, Unroll: map[int]int{}, NoOverflow: f.con != nil && f.con.NoOverflow}
